@@ -6,5 +6,6 @@ P="$1"; N="$2"; WT=/tmp/seed-$P-$N; OUT=$WT-out
 git -C /repo apply --check "$OUT/patch.diff" && echo "applies: yes" || { echo "applies: NO"; exit 1; }
 ( cd "$WT" && git diff --stat | tail -1 )
 ( cd "$WT" && make -j16 >/dev/null 2>&1 && make -j16 check 2>&1 | grep -E "^# (TOTAL|PASS|FAIL|ERROR)" | tr '\n' ' ' ); echo
-( cd "$OUT" && timeout 900 sh ./demo.sh "$WT" >"$OUT/demo.changed.log" 2>&1; echo "demo changed rc=$?"; tail -2 "$OUT/demo.changed.log" )
-( cd "$OUT" && timeout 900 sh ./demo.sh /tmp/pristine >"$OUT/demo.pristine.log" 2>&1; echo "demo pristine rc=$?"; tail -2 "$OUT/demo.pristine.log" )
+SH=sh; head -1 "$OUT/demo.sh" | grep -q bash && SH=bash
+( cd "$OUT" && timeout 900 $SH ./demo.sh "$WT" >"$OUT/demo.changed.log" 2>&1; echo "demo changed rc=$?"; tail -2 "$OUT/demo.changed.log" )
+( cd "$OUT" && timeout 900 $SH ./demo.sh /tmp/pristine >"$OUT/demo.pristine.log" 2>&1; echo "demo pristine rc=$?"; tail -2 "$OUT/demo.pristine.log" )
